@@ -189,6 +189,10 @@ func crashClass(stderr string) (string, string) {
 	if end > len(lines) {
 		end = len(lines)
 	}
+	if strings.Contains(first, "out of memory") {
+		// which allocation hits the limit first depends on what the process allocated before
+		return first, strings.Join(lines[idx:end], "\n")
+	}
 	return first + " @ " + frame, strings.Join(lines[idx:end], "\n")
 }
 
